@@ -149,4 +149,4 @@ def obligations(cx):
 
 def replay_case(r):
     nm = r['name']
-    return dict(mode='temperature' if 'temperature' in nm else 'pressure' if 'pressure' in nm else 'vacuum', env=dict(r.get('model') or {}))
+    return dict(mode='temperature' if 'temperature' in nm else 'pressure' if 'pressure' in nm else 'vacuum', feed_type='molar' if 'molar-feed' in nm else 'weight', env=dict(r.get('model') or {}))
